@@ -1527,6 +1527,11 @@ def _defer_to_next_in_mro(cls: type, name: str, default: Callable[..., Any]) -> 
     def deferring(*args: Any, **kwargs: Any) -> Any:
         """Call the method which follows the class holding the copy in the method resolution order."""
         # (The instance is not taken as a named parameter: any name might be a keyword of the call.)
+        if not isinstance(args[0], cls):
+            # The copy has been re-used as-is in an unrelated class (``__eq__ = Contracted.__eq__``): there is no class
+            # to defer to, and what has been re-used is the default itself.
+            return default(*args, **kwargs)
+
         return getattr(super(cls, args[0]), name)(*args[1:], **kwargs)  # type: ignore
 
     functools.update_wrapper(wrapper=deferring, wrapped=default)
